@@ -149,6 +149,12 @@ func LibLocal() *ty.Env {
 	add("LW", ty.St(f("P", ty.P(ty.N(lue))), f("V", ty.N(lue)), f("L", ty.Sl(ty.N(ls1))), f("M", ty.M(b("string"), ty.N(ls2))),
 		f("x", ty.N(17)), f("R", ty.P(ty.N(lr))), f("E", ty.N(n+3)))) // n+6: local and imported parts side by side
 	add("LNF", b("float64")) // n+7: a local named float
+	// an IMPORTED struct whose unexported fields hold a type with its own Equal / Compare / Hash (of that package):
+	// the reflect path of the generated code has to hand these components to their methods as the direct path does
+	xue := len(e.Decls)
+	e.Decls = append(e.Decls, &ty.Decl{Name: "XUE", Pkg: "ext", Under: ty.St(f("A", b("int")), f("B", ty.Sl(b("int")))), Methods: "Ep.Cp.Hp"}) // n+8
+	e.Decls = append(e.Decls, &ty.Decl{Name: "XUH", Pkg: "ext", Priv: true,
+		Under: ty.St(f("a", ty.N(xue)), f("b", ty.P(ty.N(xue))), f("C", b("int")))}) // n+9
 	return e
 }
 
